@@ -65,6 +65,25 @@ def _simple(e):
     return False
 
 
+def _pure_call(c):
+    """a call that only asks (a query method or a builtin reader): evaluating it for fewer
+    elements than the loop would have visited changes nothing"""
+    f = c.func
+    if isinstance(f, ast.Name):
+        return f.id in ('len', 'list', 'tuple', 'set', 'sorted', 'min', 'max', 'sum', 'any', 'all', 'isinstance', 'int',
+                        'float', 'str', 'bool', 'abs', 'round')
+    if isinstance(f, ast.Attribute):
+        return f.attr.startswith(('is_', 'has_', 'get_')) or f.attr in (
+            'predecessors', 'successors', 'keys', 'values', 'items', 'get', 'count', 'index')
+    return False
+
+
+def _cheap(e):
+    """a pure reader of simple operands: len(x), int(x), str(x)"""
+    return isinstance(e, ast.Call) and isinstance(e.func, ast.Name) and e.func.id in ('len', 'int', 'str', 'float') \
+        and len(e.args) == 1 and not e.keywords and _simple(e.args[0])
+
+
 def _getter_lambda(call):
     """lambda for itemgetter(...)/attrgetter(...) with literal arguments, else None"""
     if not (isinstance(call, ast.Call) and not call.keywords and call.args):
@@ -252,26 +271,72 @@ class _Rewrite(ast.NodeTransformer):
                             targets=[ast.Subscript(value=copy.deepcopy(c.func.value), slice=k, ctx=ast.Store())],
                             value=v, type_comment=None), st)))
                     continue
-            if isinstance(st, ast.For) and isinstance(st.iter, ast.Call) and isinstance(st.iter.func, ast.Name) \
-                    and st.iter.func.id in ('zip', 'enumerate') and any(isinstance(x, ast.Name) for x in st.iter.args):
-                # zip(KEYS, local) where the local was bound to a literal tuple just before the loop
-                new_args = []
-                for x in st.iter.args:
-                    lit = None
-                    if isinstance(x, ast.Name) and self.single[-1].get(x.id) is not None:
-                        for prev in reversed(out):
-                            if isinstance(prev, ast.Assign) and len(prev.targets) == 1 and isinstance(prev.targets[0], ast.Name):
-                                if prev.targets[0].id == x.id:
-                                    if self._lit_seq(prev.value) is not None and all(_simple(y) for y in self._lit_seq(prev.value)):
-                                        lit = prev.value
-                                    break
-                                continue
-                            break
-                    new_args.append(copy.deepcopy(lit) if lit is not None else x)
-                if any(a is not b for a, b in zip(new_args, st.iter.args)):
-                    st.iter.args = new_args
-                    st.iter = self.visit_Call(st.iter)
+            if isinstance(st, ast.For):
+                # a local bound to a literal tuple / dict display just before the loop and iterated
+                # (directly, through .items()/.values()/.keys(), or as an argument of zip/enumerate)
+                def lookback(name):
+                    if self.single[-1].get(name) is None:
+                        return None
+                    for prev in reversed(out):
+                        if isinstance(prev, ast.Assign) and len(prev.targets) == 1 and isinstance(prev.targets[0], ast.Name):
+                            if prev.targets[0].id == name:
+                                v = prev.value
+                                if isinstance(v, ast.Dict):
+                                    if all(k is not None for k in v.keys) and all(
+                                            _simple(y) or _cheap(y) for y in list(v.keys) + list(v.values)):
+                                        return v
+                                    return None
+                                if self._lit_seq(v) is not None and all(_simple(y) or _cheap(y) for y in self._lit_seq(v)):
+                                    return v
+                                return None
+                            continue
+                        if isinstance(prev, ast.Expr) and isinstance(prev.value, ast.Constant):
+                            continue
+                        break
+                    return None
+
+                def sub(e):
+                    if isinstance(e, ast.Name):
+                        lit = lookback(e.id)
+                        return copy.deepcopy(lit) if lit is not None else e
+                    if isinstance(e, ast.Call) and isinstance(e.func, ast.Attribute) and e.func.attr in (
+                            'items', 'values', 'keys') and not e.args and isinstance(e.func.value, ast.Name):
+                        lit = lookback(e.func.value.id)
+                        if isinstance(lit, ast.Dict):
+                            e.func.value = copy.deepcopy(lit)
+                            return self.visit_Call(e)
+                        return e
+                    if isinstance(e, ast.Call) and isinstance(e.func, ast.Name) and e.func.id in ('zip', 'enumerate'):
+                        na = [sub(x) for x in e.args]
+                        if any(a is not b for a, b in zip(na, e.args)):
+                            e.args = na
+                            return self.visit_Call(e)
+                    return e
+                ni = sub(st.iter)
+                if ni is not st.iter or ast.dump(ni) != ast.dump(st.iter):
+                    st.iter = ni
                     self.changed += 1
+            if isinstance(st, ast.For) and st.orelse and len(st.body) == 1 and isinstance(st.body[0], ast.If) \
+                    and not st.body[0].orelse and len(st.body[0].body) == 1 and isinstance(st.body[0].body[0], ast.Break) \
+                    and isinstance(st.target, ast.Name) and not any(
+                        isinstance(x, (ast.Call,)) and not _pure_call(x) for x in ast.walk(st.body[0].test)):
+                # search loop:  for x in S: if C(x): break / else: E   ==   if not any(C(x) for x in S): E
+                g = ast.GeneratorExp(elt=st.body[0].test, generators=[ast.comprehension(
+                    target=st.target, iter=st.iter, ifs=[], is_async=0)])
+                t = ast.UnaryOp(op=ast.Not(), operand=ast.Call(func=ast.Name(id='any', ctx=ast.Load()), args=[g], keywords=[]))
+                self.changed += 1
+                out.append(ast.fix_missing_locations(ast.copy_location(ast.If(test=t, body=st.orelse, orelse=[]), st)))
+                continue
+            if isinstance(st, ast.While) and not st.orelse and isinstance(st.test, ast.Constant) and st.test.value is True \
+                    and st.body and isinstance(st.body[0], ast.If) and not st.body[0].orelse and len(st.body[0].body) == 1 \
+                    and isinstance(st.body[0].body[0], ast.Break) and len(st.body) > 1:
+                # while True: if C: break; REST   ==   while not C: REST
+                c = st.body[0].test
+                st.test = c.operand if isinstance(c, ast.UnaryOp) and isinstance(c.op, ast.Not) else ast.UnaryOp(
+                    op=ast.Not(), operand=c)
+                st.body = st.body[1:]
+                ast.fix_missing_locations(st)
+                self.changed += 1
             if isinstance(st, ast.For) and not st.orelse:
                 parts = self._chain_parts(st.iter)
                 if parts is not None and len(parts) > 1 and not any(
@@ -502,6 +567,28 @@ class _Rewrite(ast.NodeTransformer):
             r = ast.Call(func=copy.deepcopy(p.args[0]), args=[copy.deepcopy(x) for x in p.args[1:]] + list(node.args),
                          keywords=[ast.keyword(arg=k, value=copy.deepcopy(v)) for k, v in kw.items()])
             return self.visit_Call(ast.fix_missing_locations(ast.copy_location(r, node)))
+        # {c1: v1, c2: v2}.get(K, D): a look-up table with a default is a chain of comparisons
+        if isinstance(node.func, ast.Attribute) and node.func.attr == 'get' and isinstance(node.func.value, ast.Dict) \
+                and len(node.args) == 2 and not node.keywords and _simple(node.args[0]) and node.func.value.keys and all(
+                    isinstance(k, ast.Constant) for k in node.func.value.keys) and len(node.func.value.keys) <= 8 and all(
+                        _simple(v) for v in node.func.value.values) and _simple(node.args[1]):
+            d = node.func.value
+            r = node.args[1]
+            for k, v in reversed(list(zip(d.keys, d.values))):
+                r = ast.IfExp(test=ast.Compare(left=copy.deepcopy(node.args[0]), ops=[ast.Eq()], comparators=[k]),
+                              body=v, orelse=r)
+            self.changed += 1
+            return ast.fix_missing_locations(ast.copy_location(r, node))
+        # (A if c else B)(args) -> A(args) if c else B(args)
+        if isinstance(node.func, ast.IfExp) and all(_simple(x) for x in node.args) and all(
+                k.arg and _simple(k.value) for k in node.keywords):
+            def dist(fe):
+                if isinstance(fe, ast.IfExp):
+                    return ast.IfExp(test=fe.test, body=dist(fe.body), orelse=dist(fe.orelse))
+                return ast.Call(func=fe, args=[copy.deepcopy(x) for x in node.args],
+                                keywords=[copy.deepcopy(k) for k in node.keywords])
+            self.changed += 1
+            return ast.fix_missing_locations(ast.copy_location(dist(node.func), node))
         # beta reduction
         if isinstance(node.func, ast.Lambda):
             r = _beta(node)
@@ -585,6 +672,19 @@ class _Rewrite(ast.NodeTransformer):
                 t = ast.Call(func=ast.Name(id='list', ctx=ast.Load()), args=[p], keywords=[])
                 r = t if r is None else ast.BinOp(left=r, op=ast.Add(), right=t)
             return ast.fix_missing_locations(ast.copy_location(r, node))
+        # reduce(operator.add, seq, init) == init + sum(seq)   (a left fold of additions)
+        if name == 'reduce' and len(node.args) == 3 and not node.keywords:
+            f0 = node.args[0]
+            is_add = (isinstance(f0, ast.Attribute) and f0.attr == 'add' and isinstance(f0.value, ast.Name)
+                      and f0.value.id in ('operator', 'op')) or (isinstance(f0, ast.Name) and f0.id == 'add') or (
+                isinstance(f0, ast.Lambda) and len(f0.args.args) == 2 and isinstance(f0.body, ast.BinOp) and isinstance(
+                    f0.body.op, ast.Add) and isinstance(f0.body.left, ast.Name) and isinstance(f0.body.right, ast.Name)
+                and {f0.body.left.id, f0.body.right.id} == {a.arg for a in f0.args.args})
+            if is_add:
+                self.changed += 1
+                return ast.fix_missing_locations(ast.copy_location(ast.BinOp(
+                    left=node.args[2], op=ast.Add(),
+                    right=ast.Call(func=ast.Name(id='sum', ctx=ast.Load()), args=[node.args[1]], keywords=[])), node))
         # reduce(lambda acc, x: acc or P(x), seq, False) == any(P(x) for x in seq); and/True == all
         if name == 'reduce' and len(node.args) == 3 and isinstance(node.args[0], ast.Lambda) and isinstance(
                 node.args[2], ast.Constant) and isinstance(node.args[2].value, bool):
@@ -600,6 +700,38 @@ class _Rewrite(ast.NodeTransformer):
                         target=ast.Name(id=x, ctx=ast.Store()), iter=seq, ifs=[], is_async=0)])
                     return ast.fix_missing_locations(ast.copy_location(ast.Call(
                         func=ast.Name(id='any' if is_or else 'all', ctx=ast.Load()), args=[g], keywords=[]), node))
+        return node
+
+    def visit_IfExp(self, node):
+        self.generic_visit(node)
+        # B(D[K]) if K in D else X, D a display with constant keys: one branch per key
+        t = node.test
+        if isinstance(t, ast.Compare) and len(t.ops) == 1 and isinstance(t.ops[0], ast.In) and isinstance(
+                t.comparators[0], ast.Dict) and _simple(t.left):
+            d = t.comparators[0]
+            if d.keys and all(isinstance(k, ast.Constant) for k in d.keys) and len(d.keys) <= 8 and all(
+                    _simple(v) for v in d.values):
+                dd, kd = ast.dump(d), ast.dump(t.left)
+
+                class Pick(ast.NodeTransformer):
+                    def __init__(self, v):
+                        self.v = v
+                        self.n = 0
+
+                    def visit_Subscript(self, n):
+                        if isinstance(n.value, ast.Dict) and ast.dump(n.value) == dd and ast.dump(n.slice) == kd:
+                            self.n += 1
+                            return copy.deepcopy(self.v)
+                        self.generic_visit(n)
+                        return n
+                r = node.orelse
+                for k, v in reversed(list(zip(d.keys, d.values))):
+                    pk = Pick(v)
+                    body = pk.visit(copy.deepcopy(node.body))
+                    r = ast.IfExp(test=ast.Compare(left=copy.deepcopy(t.left), ops=[ast.Eq()], comparators=[k]),
+                                  body=body, orelse=r)
+                self.changed += 1
+                return ast.fix_missing_locations(ast.copy_location(r, node))
         return node
 
     def visit_Lambda(self, node):
@@ -640,10 +772,72 @@ def _class_and_module_getters(trees):
     return cg, mg
 
 
+_BUILTIN_METHODS = set(dir(list)) | set(dir(dict)) | set(dir(set)) | set(dir(str)) | set(dir(tuple))
+
+
+def _signatures(trees):
+    """function name -> positional parameter names (without self/cls), for names whose every
+    definition in the package has the same parameters and no *args/**kwargs"""
+    sigs = {}
+    for t in trees:
+        for c in ast.walk(t):
+            if not isinstance(c, (ast.ClassDef, ast.Module)):
+                continue
+            for f in c.body:
+                if not isinstance(f, (ast.FunctionDef, ast.AsyncFunctionDef)):
+                    continue
+                a = f.args
+                params = [x.arg for x in a.posonlyargs + a.args]
+                static = any(isinstance(d, ast.Name) and d.id == 'staticmethod' for d in f.decorator_list)
+                if isinstance(c, ast.ClassDef) and not static:
+                    params = params[1:]
+                ok = not (a.vararg or a.kwarg or a.posonlyargs)
+                sigs.setdefault(f.name, []).append(tuple(params) if ok else None)
+    return {k: v[0] for k, v in sigs.items() if len(set(v)) == 1 and v[0] is not None and k not in _BUILTIN_METHODS
+            and not (k.startswith('__') and k.endswith('__'))}
+
+
+class _KwToPos(ast.NodeTransformer):
+    """I11: f(a, k=v) with k the next positional parameter of every definition of f in the
+    package reads f(a, v)"""
+
+    def __init__(self, sigs):
+        self.sigs = sigs
+        self.changed = 0
+
+    def visit_Call(self, node):
+        self.generic_visit(node)
+        if not node.keywords or any(k.arg is None for k in node.keywords) or any(
+                isinstance(x, ast.Starred) for x in node.args):
+            return node
+        f = node.func
+        name = f.attr if isinstance(f, ast.Attribute) else (f.id if isinstance(f, ast.Name) else None)
+        params = self.sigs.get(name)
+        if params is None:
+            return node
+        kw = {k.arg: k for k in node.keywords}
+        if any(k not in params for k in kw):
+            return node
+        args = list(node.args)
+        moved = False
+        while len(args) < len(params) and params[len(args)] in kw:
+            args.append(kw.pop(params[len(args)]).value)
+            moved = True
+        if moved:
+            node.args = args
+            node.keywords = [k for k in node.keywords if k.arg in kw]
+            self.changed += 1
+        return node
+
+
 def rewrite_package(trees):
     """P3 on all modules (each tree is rewritten in place); returns the number of rewrites"""
     cg, mg = _class_and_module_getters(trees)
     n = 0
+    k2p = _KwToPos(_signatures(trees))
+    for t in trees:
+        k2p.visit(t)
+    n += k2p.changed
     for t in trees:
         for _ in range(3):
             rw = _Rewrite(cg, mg)
@@ -652,6 +846,25 @@ def rewrite_package(trees):
             if not rw.changed:
                 break
         ast.fix_missing_locations(t)
+    k2p.changed = 0
+    for t in trees:
+        k2p.visit(t)
+    n += k2p.changed
+    return n
+
+
+def rewrite_tree(tree):
+    """P3 again on one module after literal loops were unrolled (getter lambdas applied to the
+    unrolled elements)"""
+    n = 0
+    for _ in range(2):
+        rw = _Rewrite({}, {})
+        rw.visit(tree)
+        n += rw.changed
+        if not rw.changed:
+            break
+    if n:
+        ast.fix_missing_locations(tree)
     return n
 
 
